@@ -251,6 +251,37 @@ def run_static_case(seed, idx, rec):
             rec.violation('holm-position', f'{tag}: flags do not follow the '
                           'bins under permutation/reshape', case)
         rec.count('position_checks')
+    # the same logical array in another memory layout (Fortran order,
+    # transposed view, strided view) must give the same flags per bin
+    if pvals.ndim >= 2 and pvals.size > 1 and b_f and h_f:
+        from valjean.gavroche.stat_tests.bonferroni import (
+            TestBonferroni, TestHolmBonferroni)
+        big = np.full(tuple(2 * d for d in pvals.shape), 0.5)
+        big[tuple(slice(None, None, 2) for _ in pvals.shape)] = pvals
+        views = {'fortran': np.asfortranarray(pvals),
+                 'transposed-view': np.ascontiguousarray(pvals.T).T,
+                 'strided-view': big[tuple(slice(None, None, 2)
+                                           for _ in pvals.shape)]}
+        name = rng.choice(sorted(views))
+        view = views[name]
+        assert view.shape == pvals.shape
+        b_3 = np.asarray(TestBonferroni.bonferroni_correction(
+            view, level / size))
+        a_3, h_3 = TestHolmBonferroni.holm_bonferroni_method(view, level)
+        a_1, _ = TestHolmBonferroni.holm_bonferroni_method(pvals, level)
+        rec.count('layout_checks')
+        if b_3.shape != pvals.shape or \
+                np.asarray(b_3).tolist() != np.asarray(b_f).reshape(
+                    pvals.shape).tolist():
+            rec.violation('bonferroni-position', f'{tag}: flags change '
+                          f'with the memory layout ({name})', case)
+        tie_free = len(set(valid.tolist())) == len(valid)
+        if tie_free and not np.isnan(flat).any() and (
+                np.asarray(h_3).tolist() != np.asarray(h_f).reshape(
+                    pvals.shape).tolist()
+                or np.asarray(a_3).tolist() != np.asarray(a_1).tolist()):
+            rec.violation('holm-position', f'{tag}: flags or levels change '
+                          f'with the memory layout ({name})', case)
     rec.count('evaluations')
     if b_f is not None and h_f is not None:
         rec.seen(('static', list(pvals.shape), core.h((b_f, h_f)),
